@@ -7,6 +7,7 @@ package main
 import (
 	"fmt"
 	"go/constant"
+	"go/token"
 	"go/types"
 	"sort"
 	"strings"
@@ -290,6 +291,72 @@ func runCodecTable(prog *Prog, sc StaticCheck) *StaticResult {
 		}
 		res.Discharged++
 	}
+	// ---- optional sub-messages: a guard that tests fields of the sub-message must test every field the
+	// sub-message emits, otherwise a message with only the untested field set is silently dropped ----
+	for _, b := range enc.Blocks {
+		for _, in := range b.Instrs {
+			c, ok := in.(*ssa.Call)
+			if !ok || c.Call.StaticCallee() == nil || c.Call.StaticCallee().Name() != "encodeMessage" || len(c.Call.Args) < 3 {
+				continue
+			}
+			var sub string
+			if mi, ok := c.Call.Args[2].(*ssa.MakeInterface); ok {
+				sub = namedOf(mi.X.Type())
+			}
+			if sub == "" {
+				continue
+			}
+			tested := map[string]bool{}
+			for _, pb := range b.Preds {
+				ifi, ok := pb.Instrs[len(pb.Instrs)-1].(*ssa.If)
+				if !ok {
+					continue
+				}
+				bin, ok := ifi.Cond.(*ssa.BinOp)
+				if !ok || bin.Op != token.NEQ {
+					continue
+				}
+				if u, ok := bin.X.(*ssa.UnOp); ok {
+					if fa, ok := u.X.(*ssa.FieldAddr); ok && namedOf(fa.X.Type()) == sub {
+						if cz, ok := bin.Y.(*ssa.Const); ok && cz.Value != nil {
+							tested[fieldName(fa)] = true
+						}
+					}
+				}
+			}
+			if len(tested) == 0 {
+				continue
+			}
+			subEnc := prog.FindFunc(pkgPath, sub+".encode")
+			if subEnc == nil {
+				continue
+			}
+			res.Obligations++
+			var missing []string
+			recv2 := subEnc.Params[0]
+			for _, sb := range subEnc.Blocks {
+				for _, si := range sb.Instrs {
+					sc2, ok := si.(*ssa.Call)
+					if !ok || sc2.Call.StaticCallee() == nil {
+						continue
+					}
+					if _, known := kindCompat[sc2.Call.StaticCallee().Name()]; !known || len(sc2.Call.Args) < 3 {
+						continue
+					}
+					if f := fieldOf(sc2.Call.Args[2], recv2, 0); f != "" && !tested[sub+"."+f] {
+						missing = append(missing, f)
+					}
+				}
+			}
+			if len(missing) > 0 {
+				sort.Strings(missing)
+				res.Failures = append(res.Failures, fmt.Sprintf("%s.encode: the %s sub-message at %s is emitted only when %v is non-zero, but %s also carries %v: a message with only those set is dropped", T, sub, posOf(prog, c.Pos()), keysOf(tested), sub, missing))
+			} else {
+				res.Discharged++
+				res.Samples = append(res.Samples, map[string]interface{}{"obligation": fmt.Sprintf("%s.encode#guard of optional %s tests every emitted field %v", T, sub, keysOf(tested)), "backend": "static"})
+			}
+		}
+	}
 	res.Detail = map[string]interface{}{"type": T, "fields": len(encs), "decoder_entries": len(decs)}
 	if len(encs) == 0 {
 		fail("%s.encode emits no fields (vacuous)", T)
@@ -334,4 +401,13 @@ func analyseDecoder(fn *ssa.Function) *decEntry {
 	}
 	sort.Strings(d.fields)
 	return d
+}
+
+func keysOf(m map[string]bool) []string {
+	var out []string
+	for k := range m {
+		out = append(out, k)
+	}
+	sort.Strings(out)
+	return out
 }
